@@ -771,6 +771,53 @@ fn all_connections_scenarios() -> Vec<String> {
     out
 }
 
+// ------------------------------------------------------------------ family: http (one body = several commands; one reply entry per command)
+fn scenario_http(sc: &str) -> Result<Violations, String> {
+    // sc = the HTTP body, commands separated by ';'
+    use nundb::network::http_ops::verif_process_commands;
+    let w = mk_world(0);
+    let mut v: Violations = vec![];
+    let (mut c, mut rx) = Client::new_empty_and_receiver();
+    let commands: Vec<&str> = sc.split(';').collect();
+    let out = catch_unwind(AssertUnwindSafe(|| verif_process_commands(&commands, &mut rx, &w.dbs, &mut c)));
+    let replies = match out { Ok(r) => r, Err(_) => { v.push("C10.safety".into()); return Ok(v); } };
+    let real: Vec<&str> = commands.iter().map(|c| c.trim()).filter(|c| !c.is_empty()).collect();
+    // ---- one entry per (non-blank) command, in order
+    chk(&mut v, "C20.one-entry-per-command", replies.len() == real.len());
+    if replies.len() != real.len() { return Ok(v); }
+    // ---- each entry is produced by its own command: replay the same commands one by one on a fresh, identical world and take what each produced
+    let w2 = mk_world(0);
+    let (mut c2, mut rx2) = Client::new_empty_and_receiver();
+    for (i, cmd) in real.iter().enumerate() {
+        let (r, msgs) = run_cmd(&w2, &mut c2, &mut rx2, cmd);
+        let want: String = match &r {
+            Response::Error { msg } => msg.clone(),
+            Response::VersionError { msg, .. } => msg.clone(),
+            _ => msgs.first().cloned().unwrap_or("empty".to_string()),
+        };
+        chk(&mut v, "C20.entry-of-its-own-command", replies[i] == want);
+    }
+    // ---- the session is released when the request ends: nothing stays subscribed, the connection count is back
+    let m = w.dbs.map.read().unwrap();
+    let db = m.get("d").unwrap();
+    let base = { let m2 = w2.dbs.map.read().unwrap(); m2.get("d").unwrap().connections_count() - if c2.selected_db_name().as_deref() == Some("d") { 1 } else { 0 } };
+    chk(&mut v, "C20.session-released", db.connections_count() == base);
+    let watchers_left: usize = db.watchers.map.read().unwrap().values().map(|s| s.len()).sum();
+    chk(&mut v, "C20.session-released", watchers_left == 0);
+    Ok(v)
+}
+fn all_http_scenarios() -> Vec<String> {
+    let cmds = ["auth u p", "auth u wrong", "use-db d tok", "use-db d wrong", "use-db d usr ut", "get secret", "get-safe secret", "get public1", "set public1 y", "set-safe public1 0 z",
+        "set-safe public1 99 z", "remove sea", "increment sea 1", "increment secret 1", "keys", "create-db x xt", "get $$secret", "watch secret", "watch public1", "", " "];
+    let mut out = vec![];
+    for a in cmds { out.push(a.to_string()); out.push(format!("{};", a));
+        for b in cmds { out.push(format!("{};{}", a, b));
+            if deep() { for c in cmds { out.push(format!("{};{};{}", a, b, c)); } } } }
+    for pre in ["use-db d tok", "use-db d usr ut", "use-db d tok;watch public1"] { for b in cmds { for c in cmds { out.push(format!("{};{};{}", pre, b, c)); } } }
+    out.sort(); out.dedup();
+    out
+}
+
 /// a client that does not drain its channel (an HTTP request with many commands in one body): `n` times the same line
 fn scenario_flood(sc: &str) -> Result<Violations, String> {
     let p: Vec<&str> = sc.splitn(2, '|').collect();
@@ -811,7 +858,8 @@ fn families() -> Vec<(&'static str, fn() -> Vec<String>, fn(&str) -> Result<Viol
          ("arbiter", all_arbiter_scenarios, scenario_arbiter), ("lines", all_lines_scenarios, scenario_lines),
          ("watch", all_watch_scenarios, scenario_watch), ("flood", all_flood_scenarios, scenario_flood),
          ("connections", all_connections_scenarios, scenario_connections),
-         ("keymap", all_keymap_scenarios, scenario_keymap)]
+         ("keymap", all_keymap_scenarios, scenario_keymap),
+         ("http", all_http_scenarios, scenario_http)]
 }
 
 fn main() {
@@ -875,7 +923,7 @@ fn main() {
         "selftest" => {
             // on a correct tree no scenario violates anything
             let mut n = 0usize; let mut bad = 0usize;
-            for (fam, gen, run) in families() { for sc in gen() { n += 1; if let Ok(v) = run(&sc) { if !v.is_empty() { bad += 1; if bad <= 10 { println!("{}:{} -> {:?}", fam, sc, v); } } } } }
+            for (fam, gen, run) in families() { for sc in gen() { n += 1; if let Ok(v) = run(&sc) { if !v.is_empty() { bad += 1; if bad <= 400 { println!("{}:{} -> {:?}", fam, sc, v); } } } } }
             println!("selftest: {} scenarios, {} with violations", n, bad);
             std::process::exit(if bad == 0 { 0 } else { 1 });
         }
